@@ -11,7 +11,13 @@ A *case* is JSON: {"cfg": {...}, "cmds": [cmd, ...]} with
           ["adv", dt]               (C22 only; ignored elsewhere) drain the virtual-time scheduler, then advance dt ticks
     behaviour {"k": "plain"} | {"k": "unsub_self", "at": k} | {"k": "unsub_other", "at": k, "who": j}
           | {"k": "sub_new", "at": k, "child": behaviour-without-sub_new}; optional "bare": true
+          | {"k": "emit", "at": k, "what": ["next", value name] | ["completed"] | ["error", tag]}  (C22 only)
           "at" = 0-based index of the observer's own callback inside which the action is performed.
+          "emit" calls the subject re-entrantly from inside the handler.  It is armed only on a ReplaySubject (deliveries
+          are queued per subscriber, so the outcome is determined: the emission joins the history at the current virtual
+          time and is queued to every current subscriber after what is already queued for it), only for the FIRST
+          observer with that behaviour, and only in cases without unsub_other/sub_new behaviours (with those, or with two
+          emitters, the result would depend on the order in which a drain serves the subscribers); otherwise it acts as plain.
           "bare" (subscribe(on_next) without an on_error handler) is honoured only when the subject is already
           disposed, where it makes Observable.subscribe re-raise the DisposedException instead of routing it to on_error.
 
@@ -109,6 +115,8 @@ class Model:
         self.cands = []
         self.n_top = 0
         self.raised_of = lambda oid: None
+        self.emit_ok = False  # set by run_history from a pre-scan of the case
+        self.emitter = None  # oid of the one armed re-entrant emitter
         # evidence
         self.flags = set()
         self.n_next = 0
@@ -161,6 +169,22 @@ class Model:
 
     def _fire(self, o, notif):
         k = o.beh["k"]
+        if k == "emit":
+            if o.oid != self.emitter:
+                return  # not armed: acts as a plain recorder
+            w = o.beh["what"]
+            self.flags.add("reentrant-emit:" + w[0])
+            if not o.pending:
+                self.flags.add("reentrant-emit-own-queue-empty")
+            if len(self.live) >= 2:
+                self.flags.add("reentrant-emit-broadcast>=2")
+            if w[0] == "next":
+                self.cmd_next(w[1])
+            elif w[0] == "error":
+                self.cmd_terminal(["E", ["exc", w[1]]])
+            else:
+                self.cmd_terminal(["C"])
+            return
         self.flags.add("fired:" + k)
         if k == "unsub_self":
             if notif[0] == "N":
@@ -276,6 +300,8 @@ class Model:
         o = MObs(str(self.n_top), beh)
         self.n_top += 1
         self.obs[o.oid] = o
+        if beh["k"] == "emit" and self.emit_ok and self.emitter is None:
+            self.emitter = o.oid
         return o
 
     def cmd_sub(self, o, bare):
@@ -413,6 +439,7 @@ class Driver:
             self.subject = ReplaySubject(cfg.get("buf"), cfg.get("win"), self.lab.sched)
         self.recs = {}
         self.cands = []
+        self.emitter = None
 
     def subscribe(self, rec, bare):
         self.recs[rec.oid] = rec
@@ -442,6 +469,19 @@ class Driver:
                 self.recs[v].unsubscribe()
         elif k == "sub_new":
             self.subscribe(Rec(self, rec.oid + ".c", b["child"]), False)
+        elif k == "emit":
+            if rec.oid != self.emitter:
+                return
+            w = b["what"]
+            try:
+                if w[0] == "next":
+                    self.subject.on_next(val(w[1]))
+                elif w[0] == "error":
+                    self.subject.on_error(make_error(w[1]))
+                else:
+                    self.subject.on_completed()
+            except DisposedException:
+                pass  # pending deliveries after dispose(): emitting raises, as the model expects (no effect)
 
     def drain(self, dt):
         """Run everything due at the current instant, then move the clock by dt ticks."""
@@ -480,6 +520,7 @@ def run_history(kind, case, check_observers_state=False):
     m = Model(kind, cfg)
     subj = drv.subject
     raised_of = lambda oid: drv.recs[oid].sub_raised if oid in drv.recs else None  # noqa
+    m.emit_ok = kind == "replay" and not any(c[0] == "sub" and c[1]["k"] in ("unsub_other", "sub_new") for c in cmds)
     steps = list(cmds)
     if kind == "replay":
         steps = steps + [["adv", 0]]  # final drain
@@ -492,6 +533,7 @@ def run_history(kind, case, check_observers_state=False):
             beh = cmd[1]
             bare = bool(beh.get("bare")) and m.disposed
             mo = m.new_top(beh)
+            drv.emitter = m.emitter
             got = drv.subscribe(Rec(drv, mo.oid, beh), bare)
             exp = m.cmd_sub(mo, bare)
         elif op == "unsub":
@@ -587,7 +629,7 @@ def nontrivial(kind, flags):
     if kind == "behavior":
         return "sub-gets-pushed-value" in f and ("incb-unsub-live" in f or "incb-sub:next" in f or "late-sub-after-error" in f or "late-sub-after-completed" in f)
     if kind == "replay":
-        return "replay-strict-subset" in f
+        return "replay-strict-subset" in f or any(x.startswith("reentrant-emit:") for x in f)
     if kind == "async":
         return ("async-completed-value" in f or "async-error" in f) and "terminal-with-observers" in f and (
             "late-sub-after-error" in f or "late-sub-after-completed" in f
@@ -612,7 +654,16 @@ def _with_bare(b):
 
 BEHAVIOURS = _with_bare(st.one_of(_PLAIN, _US, _UO, _SN))
 
+_EMIT_WHAT = st.one_of(
+    st.builds(lambda v: ["next", v], st.sampled_from(NAMES)),
+    st.builds(lambda v: ["next", v], st.sampled_from(NAMES)),
+    st.just(["completed"]),
+    st.just(["error", "e2"]),
+)
+_EM = st.builds(lambda a, w: {"k": "emit", "at": a, "what": w}, st.integers(0, 3), _EMIT_WHAT)
+REENTRANT_BEHAVIOURS = st.one_of(_PLAIN, _US, _EM)
 _SUB = st.builds(lambda b: ["sub", b], BEHAVIOURS)
+_SUB_RE = st.builds(lambda b: ["sub", b], REENTRANT_BEHAVIOURS)
 _UNSUB = st.builds(lambda i: ["unsub", i], st.integers(0, 7))
 _NEXT = st.builds(lambda v: ["next", v], st.sampled_from(NAMES))
 _ERROR = st.builds(lambda t: ["error", t], st.sampled_from(["e1", "e2"]))
@@ -624,7 +675,7 @@ _ADV = st.builds(lambda d: ["adv", d], st.sampled_from([0, 0, 1, 1, 1, 2, 3, 5])
 _BY_OP = {"sub": _SUB, "next": _NEXT, "unsub": _UNSUB, "adv": _ADV, "error": _ERROR, "completed": _COMPLETED, "dispose": _DISPOSE}
 
 
-def commands(kind, active_only=False, falsy_error=False):
+def commands(kind, active_only=False, falsy_error=False, reentrant=False):
     """One command.  Weights are realised with sampled_from over a repeated op list (one_of would de-duplicate
     repeated branches).  Terminals and, even more, dispose are rare: what follows them only exercises the
     late-subscriber / DisposedException clauses."""
@@ -637,6 +688,8 @@ def commands(kind, active_only=False, falsy_error=False):
         if falsy_error:
             ops = ops + ["falsy"] * 8
     by_op = dict(_BY_OP, falsy=st.just(["error", "falsy"]))
+    if reentrant:
+        by_op["sub"] = _SUB_RE
 
     @st.composite
     def _cmd(draw):
@@ -661,13 +714,13 @@ def _sized(elem, mins, hi):
     return st.one_of(*[st.lists(elem, min_size=lo, max_size=hi) for lo in mins if lo <= hi])
 
 
-def histories(kind, max_cmds, falsy_error=False):
+def histories(kind, max_cmds, falsy_error=False, reentrant=False):
     """An 'active' prefix (no terminal, no dispose) followed by a general tail; one JSON list, shrinks as one value."""
     half = max(1, max_cmds // 2)
     cmds = st.builds(
         lambda a, b: a + b,
-        _sized(commands(kind, active_only=True), (0, 6, 14, 30), half),
-        _sized(commands(kind, falsy_error=falsy_error), (1, 5, 12), half),
+        _sized(commands(kind, active_only=True, reentrant=reentrant), (0, 6, 14, 30), half),
+        _sized(commands(kind, falsy_error=falsy_error, reentrant=reentrant), (1, 5, 12), half),
     )
     return st.fixed_dictionaries({"cfg": configs(kind), "cmds": cmds})
 
